@@ -114,3 +114,19 @@ func ContextRefName(contextOfCall, refElement protoreflect.Descriptor) (string, 
 }
 
 func DefaultJSONName(name string) string { return protoprint.VerifDefaultJSONName(name) }
+
+// OptionPrint is one option of an element as the option printer sees and writes it.
+type OptionPrint = protoprint.VerifOption
+
+// OptionField is the value tree of an option.
+type OptionField = optionreflect.OptionField
+
+const (
+	OptionScalar  = optionreflect.FieldTypeScalar
+	OptionMessage = optionreflect.FieldTypeMessage
+	OptionArray   = optionreflect.FieldTypeArray
+)
+
+func PrintOptions(elem protoreflect.Descriptor) ([]OptionPrint, error) {
+	return protoprint.VerifPrintOptions(elem)
+}
